@@ -785,7 +785,8 @@ class Context:
         """
         requested_plugins = {}
         cached_plugins = self._fixed_plugin_cache[self._context_hash()]  # type: ignore
-        for target, plugin in cached_plugins.items():
+        # Iterate over a snapshot: other threads may be adding plugins to the cache
+        for target, plugin in list(cached_plugins.items()):
             if target in requested_plugins:
                 # If e.g. target is already seen because the plugin is
                 # multi output
@@ -1677,6 +1678,11 @@ class Context:
                 if is_superrun:
                     # In case the checking about allow_superrun shows error
                     p.allow_superrun = True
+                # Register the temporary plugin in a private copy of this context:
+                # several threads (multi_run) may use the context at the same time,
+                # and would otherwise see and remove each other's temporary plugin.
+                # noinspection PyMethodFirstArgAssignment
+                self = self.new_context()
                 self.register(p)
                 targets = (temp_name,)
             elif not allow_multiple or processor is strax.SingleThreadProcessor:
